@@ -5,7 +5,7 @@ CFG = dict(
     checker="check_case",
     n=dict(quick=200, thorough=4000),
     shard=30,
-    rule="cases 0-3 are scripted minimal witnesses of the four handle-count findings; each other case = one pool (2-8 blocks of 2-8 addresses), 1-3 hosts, an IPAM config (strict affinity / auto-allocate / "
+    rule="cases 0-4 are scripted minimal witnesses (four handle-count findings, MaxAlloc retry after a crash); about 1 in 9 operations is an AutoAssign / AssignIP with MaxAllocToHandlePerIPVersion 1-2 (handles are shared between clients); each other case = one pool (2-8 blocks of 2-8 addresses), 1-3 hosts, an IPAM config (strict affinity / auto-allocate / "
          "block limit), and 1-3 clients of the REAL ipamClient each running 2-15 AutoAssign / AssignIP / ReleaseIPs / "
          "ReleaseByHandle / ClaimAffinity / ReleaseAffinity operations against the in-memory CAS backend; even cases are sequential (one client), odd cases "
          "are concurrent: a seeded scheduler picks which client performs its next datastore access, injects write "
@@ -18,7 +18,7 @@ CFG = dict(
              "in-memory CAS backend + scheduler harness/C19/cmd/membackend (same contract as the etcdv3 backend: Create fails if "
              "present, Update/Delete compare the revision)", "Go driver harness/C19 (overlay build, tag verif)"],
     assumptions=["datastore = linearizable key/value store with per-key compare-and-swap on a revision (Common/Cas.v)",
-                 "one IPv4 pool selecting every node, no IP reservations, IPCooldownSeconds=0, no MaxAllocToHandlePerIPVersion, "
+                 "one IPv4 pool selecting every node, no IP reservations, IPCooldownSeconds=0, "
                  "no Windows reserved handle, ReleaseIPs called with addresses of one block",
                  "randomBlockGenerator's start index and Go map iteration order are inputs (universally quantified in the theorems)",
                  "blocks claimed less than one minute ago are never reclaimed (EmptyBlockMinReclaimAge)",
